@@ -246,6 +246,84 @@ macro_rules! forms_impl {
         }
     };
 }
+/// port filters: the same sets reached by every order of five builder calls, with any_port() first, last or absent,
+/// a single port given as a port, a one-element list or a one-port range, and an empty range thrown in
+macro_rules! port_forms_impl {
+    ($name:ident, $krate:ident) => {
+        pub fn $name() -> Vec<(String, PF, $krate::PortFilter)> {
+            use $krate::PortFilter;
+            let mut v = vec![];
+            let mut perms: Vec<Vec<usize>> = vec![];
+            fn rec(cur: &mut Vec<usize>, out: &mut Vec<Vec<usize>>) {
+                if cur.len() == 5 {
+                    out.push(cur.clone());
+                    return;
+                }
+                for i in 0..5 {
+                    if !cur.contains(&i) {
+                        cur.push(i);
+                        rec(cur, out);
+                        cur.pop();
+                    }
+                }
+            }
+            rec(&mut vec![], &mut perms);
+            for (pi, perm) in perms.iter().enumerate() {
+                for any in [0u8, 1, 2] {
+                    let enc = pi % 3;
+                    let mut f = PortFilter::new();
+                    if any == 1 {
+                        f = f.any_port();
+                    }
+                    for &op in perm {
+                        f = match (op, enc) {
+                            (0, 0) => f.source(40000),
+                            (0, 1) => f.source_list(vec![40000]),
+                            (0, _) => f.source_range(40000..40001),
+                            (1, 0) => f.destination(80),
+                            (1, 1) => f.destination_list(vec![80]),
+                            (1, _) => f.destination_range(80..81),
+                            (2, _) => f.source_range(8000..9000),
+                            (3, _) => f.destination_range(443..445).destination_range(500..500),
+                            _ => f.destination_list(vec![65535, 0]).source_range(7..7),
+                        };
+                    }
+                    if any == 2 {
+                        f = f.any_port();
+                    }
+                    let pf = PF { sp: vec![40000], dp: vec![80, 65535, 0], sr: vec![(8000, 9000)], dr: vec![(443, 445)], any: any != 0 };
+                    v.push((format!("calls in order {perm:?}, single ports as {}, any_port {}", ["ports", "lists", "ranges"][enc], ["absent", "first", "last"][any as usize]), pf, f));
+                }
+            }
+            v
+        }
+    };
+}
+port_forms_impl!(port_forms_tcp, huginn_net_tcp);
+port_forms_impl!(port_forms_http, huginn_net_http);
+port_forms_impl!(port_forms_tls, huginn_net_tls);
+fn check_port_forms(r: &mut Report) {
+    let ports = [0u16, 1, 6, 7, 8, 79, 80, 81, 442, 443, 444, 445, 499, 500, 501, 7999, 8000, 8999, 9000, 39999, 40000, 40001, 65534, 65535];
+    macro_rules! run {
+        ($krate:literal, $forms:expr) => {
+            for (desc, pf, f) in $forms {
+                for &sp in &ports {
+                    for &dp in &ports {
+                        r.exec(1);
+                        let (exp, got) = (ref_pf(&pf, sp, dp), f.matches(sp, dp));
+                        r.outcome(&("port-form", pf.any, got));
+                        if exp != got {
+                            r.dev(format!("C14/builder-form/{}/port", $krate), "builder-form", || json!({"kind": "builder-form", "crate": $krate, "form": desc, "src_port": sp, "dst_port": dp, "expected": exp, "matches": got}));
+                        }
+                    }
+                }
+            }
+        };
+    }
+    run!("tcp", port_forms_tcp());
+    run!("http", port_forms_http());
+    run!("tls", port_forms_tls());
+}
 forms_impl!(forms_tcp, huginn_net_tcp);
 forms_impl!(forms_http, huginn_net_http);
 forms_impl!(forms_tls, huginn_net_tls);
@@ -428,9 +506,10 @@ pub fn run(thorough: bool) -> Outcome {
     });
     let mut report = report;
     check_forms(&mut report);
+    check_port_forms(&mut report);
     Outcome {
         report,
-        rule: "every filter configuration of the alphabet x every same-family endpoint pair x every port pair, on the three filter.rs copies; builder forms: address and subnet filters built from new() / default(), with every sequence of up to three side selectors, addresses added before or after them, installed after a decoy filter and with the mode set twice (the last call decides) x every endpoint pair; distinct = distinct truth tables over the endpoint alphabet".into(),
+        rule: "every filter configuration of the alphabet x every same-family endpoint pair x every port pair, on the three filter.rs copies; builder forms: address and subnet filters built from new() / default(), with every sequence of up to three side selectors, addresses added before or after them, installed after a decoy filter and with the mode set twice (the last call decides) x every endpoint pair; port filters built by the 120 orders of five builder calls, any_port() absent / first / last, single ports as port / list / one-port range, with empty ranges, x 24 x 24 port pairs; distinct = distinct truth tables over the endpoint alphabet".into(),
         exhaustive: true,
         bounds: json!({"configurations": cfgs.len(), "crates": krates, "addresses": ips.len(), "ports": ports}),
     }
@@ -439,6 +518,7 @@ pub fn run(thorough: bool) -> Outcome {
 pub fn replay(ex: &serde_json::Value) -> Report {
     let mut r = Report::new();
     if ex["kind"].as_str() == Some("builder-form") {
+        check_port_forms(&mut r);
         check_forms(&mut r);
         return r;
     }
